@@ -11,7 +11,7 @@ import ast
 import collections
 
 from .model import AnalysisError, Unfoldable, Folder, FEnum, FEnumMember, ClassRef, FuncRef, norm
-from .interp import Interp, Raised, Unsupported, NEXT, BREAK, CONTINUE, strip_doc
+from .interp import Interp, Raised, Unsupported, NEXT, BREAK, CONTINUE, BROKE, strip_doc
 
 EOF, BOF = 'EOF', 'BOF'
 CAP = 3            # cursor offsets 0..CAP-1 exact, then 'M' (>= CAP)
@@ -78,9 +78,14 @@ def table_scan_helper(repo, module, call):
         return None
     if len(body) != 1 or not isinstance(body[0], ast.Return):
         return None
-    v = body[0].value
+    d = table_scan_expr(repo, h.module, body[0].value, params[0])
+    return (h, d) if d is not None else None
+
+
+def table_scan_expr(repo, module, v, pname):
+    """`next((k for k, vals in CATEGORY_CODES.items() if <pname> in vals), <CC member>)` -> that member, else None"""
     if not (isinstance(v, ast.Call) and isinstance(v.func, ast.Name) and v.func.id == 'next' and len(v.args) == 2
-            and isinstance(v.args[0], ast.GeneratorExp) and len(v.args[0].generators) == 1):
+            and not v.keywords and isinstance(v.args[0], ast.GeneratorExp) and len(v.args[0].generators) == 1):
         return None
     g = v.args[0].generators[0]
     it = g.iter
@@ -92,17 +97,17 @@ def table_scan_helper(repo, module, call):
     k, vals = g.target.elts[0].id, g.target.elts[1].id
     ok_elt = isinstance(v.args[0].elt, ast.Name) and v.args[0].elt.id == k
     ok_if = len(g.ifs) == 1 and isinstance(g.ifs[0], ast.Compare) and len(g.ifs[0].ops) == 1 and isinstance(g.ifs[0].ops[0], ast.In) \
-        and isinstance(g.ifs[0].left, ast.Name) and g.ifs[0].left.id == params[0] \
+        and isinstance(g.ifs[0].left, ast.Name) and g.ifs[0].left.id == pname \
         and isinstance(g.ifs[0].comparators[0], ast.Name) and g.ifs[0].comparators[0].id == vals
     if not (ok_elt and ok_if):
         return None
     try:
-        d = Folder(repo, h.module).ev(v.args[1])
+        d = Folder(repo, module).ev(v.args[1])
     except Unfoldable:
         return None
     if not isinstance(d, FEnumMember):
         return None
-    return h, d
+    return d
 
 
 class Alphabet:
@@ -171,6 +176,10 @@ class Alphabet:
                     h = table_scan_helper(self.repo, fn.module, n.value.args[2])
                     if h is not None:
                         cands.append(h[1])
+                    elif isinstance(n.value.args[0], ast.Name):
+                        d_ = table_scan_expr(self.repo, fn.module, n.value.args[2], n.value.args[0].id)
+                        if d_ is not None:
+                            cands.append(d_)
         if len(cands) != 1 or not isinstance(cands[0], FEnumMember):
             # fall back to CC.Other; R19.a will examine categorize itself
             return self.other
@@ -398,9 +407,9 @@ class TokInterp(Interp):
                 fr.seq = (fr.seq + tuple(frozenset(x) for x in eaten_syms))[:2]
             for k, v in list(fr.vars.items()):
                 v2 = self.freeze_val(v, W)
-                if v2[0] == 'tok':
+                if v2[0] in ('tok', 'toklist', 'strof'):
                     tk = v2[1]
-                    v2 = ('tok', tk._replace(lag=sat_add(tk.lag, n)))
+                    v2 = (v2[0], tk._replace(lag=sat_add(tk.lag, n)))
                 fr.vars[k] = v2
         return s
 
@@ -498,11 +507,57 @@ class TokInterp(Interp):
             self.unsupported('non-constant set display', n)
         return [(self.lift(v), st)]
 
-    ev_List = ev_Set
+    def ev_List(self, n, st):
+        v = self.fold_try(n, st)
+        if v is not None:
+            return [(self.lift(v), st)]
+        # a list of consecutive pieces of the input ([text.forward(1)], later joined): kept as their concatenation
+        outs = []
+        for vals, s1 in self.evs(n.elts, st):
+            if isinstance(vals, Raised):
+                outs.append((vals, s1))
+                continue
+            if not vals or not all(x[0] == 'tok' for x in vals):
+                self.unsupported('non-constant list display', n)
+            acc = vals[0]
+            for x in vals[1:]:
+                acc = self.concat(acc, x, n, s1)
+            outs.append((('toklist', acc[1]), s1))
+        return outs
+
+    def _comprehension_values(self, n, st):
+        """[<elt> for <target> in <ordered constant sequence>] without conditions -> list of element values"""
+        if len(n.generators) != 1 or n.generators[0].ifs or n.generators[0].is_async:
+            self.unsupported('comprehension %s' % norm(n)[:60], n)
+        g = n.generators[0]
+        res = []
+        for it, s0 in self.ev(g.iter, st):
+            if isinstance(it, Raised) or it[0] != 'pyseq' or not it[1]:
+                self.unsupported('comprehension over %s' % (it[0] if not isinstance(it, Raised) else 'a raising expression'), n)
+            vals = []
+            for p in it[2]:
+                pv = p if isinstance(p, tuple) and p and p[0] in ('tuple', 'const', 'func') else self.lift(p)
+                for s1 in self.assign(g.target, pv, s0):
+                    for v, _s2 in self.ev(n.elt, s1):
+                        if isinstance(v, Raised):
+                            self.unsupported('comprehension element raises', n)
+                        vals.append(v)
+            res.append((tuple(vals), s0))
+        return res
+
+    def ev_ListComp(self, n, st):
+        v = self.fold_try(n, st)
+        if v is not None:
+            return [(self.lift(v), st)]
+        return [(('pyseq', True, vals), s0) for vals, s0 in self._comprehension_values(n, st)]
+
+    def ev_GeneratorExp(self, n, st):
+        # a one-shot iterator: ('pygen', elements, number already consumed)
+        return [(('pygen', vals, 0), s0) for vals, s0 in self._comprehension_values(n, st)]
 
     def ev_Attribute(self, n, st):
         v = self.fold_try(n, st)
-        if v is not None:
+        if v is not None and type(v).__name__ not in ('builtin_function_or_method', 'method', 'method-wrapper'):
             return [(self.lift(v), st)]
         outs = []
         for v, s1 in self.ev(n.value, st):
@@ -574,7 +629,7 @@ class TokInterp(Interp):
     def insync(st):
         """(frame depth, name) of the token-valued locals whose text ends exactly at the cursor"""
         return frozenset((d, k) for d, fr in enumerate(st.frames) for k, v in fr.vars.items()
-                         if v[0] == 'tok' and v[1].lag == 0)
+                         if v[0] in ('tok', 'toklist') and v[1].lag == 0)
 
     def forward_until(self, cond, peek_flag, st, node):
         """Buffer.forward_until(cond): consume items one at a time until cond(item) holds or the input ends;
@@ -758,6 +813,26 @@ class TokInterp(Interp):
             self.unsupported('subscript of %s' % d[0], n)
         return outs
 
+    def concrete_keys(self, k, st, node):
+        """-> [(concrete key, state refined to that key)] for a category-valued abstract key (or tuple of them)"""
+        if k[0] == 'const':
+            return [(k[1], st)]
+        if k[0] == 'cat':
+            return [(cc, st.copy()) for cc in sorted(k[1])]
+        if k[0] == 'slotcat':
+            outs = []
+            for cc in sorted({self.A.cc_of(x) for x in st.slot(k[1]) if x not in (EOF, BOF)}):
+                for b, s1 in self.split_slot(k[1], {int(cc)}, st, False):
+                    if b:
+                        outs.append((cc, s1))
+            return outs
+        if k[0] == 'tuple':
+            outs = [((), st)]
+            for c in k[1]:
+                outs = [(acc + (key,), s2) for acc, s1 in outs for key, s2 in self.concrete_keys(c, s1, node)]
+            return outs
+        self.unsupported('table key %s' % k[0], node)
+
     def key_candidates(self, k, st):
         """possible concrete keys of a category-valued abstract value"""
         if k[0] == 'const':
@@ -786,6 +861,34 @@ class TokInterp(Interp):
     # ------------------------------------------------------------------ calls
     def ev_Call(self, n, st):
         f = n.func
+        if isinstance(f, ast.Attribute) and f.attr == 'append' and isinstance(f.value, ast.Name) and len(n.args) == 1 \
+                and not n.keywords and st.top.vars.get(f.value.id, ('?',))[0] in ('toklist', 'pyseq') \
+                and (st.top.vars[f.value.id][0] == 'toklist' or st.top.vars[f.value.id][1:] == (True, ())):
+            outs = []
+            for v, s1 in self.ev(n.args[0], st):
+                if isinstance(v, Raised):
+                    outs.append((v, s1))
+                    continue
+                if v[0] != 'tok':
+                    self.unsupported('append of %s to a list of input pieces' % v[0], n)
+                cur = s1.top.vars[f.value.id]
+                s2 = s1.copy()
+                s2.top.vars[f.value.id] = ('toklist', v[1] if cur[0] == 'pyseq' else self.concat(('tok', cur[1]), v, n, s1, aname=f.value.id)[1])
+                outs.append((('const', None), s2))
+            return outs
+        if isinstance(f, ast.Attribute) and f.attr == 'join' and isinstance(f.value, ast.Constant) and f.value.value == '' \
+                and len(n.args) == 1 and not n.keywords:
+            outs = []
+            for v, s1 in self.ev(n.args[0], st):
+                if isinstance(v, Raised):
+                    outs.append((v, s1))
+                elif v[0] == 'toklist':
+                    outs.append((('strof', v[1]), s1))       # the characters of those pieces as a plain string
+                elif v[0] == 'pyseq' and v[1:] == (True, ()):
+                    outs.append((('const', ''), s1))
+                else:
+                    self.unsupported("''.join(%s)" % v[0], n)
+            return outs
         if isinstance(f, ast.Name):
             if f.id == 'next' and f.id not in st.top.vars:
                 return self.call_next(n, st)
@@ -829,8 +932,21 @@ class TokInterp(Interp):
                     outs.append((('pyseq', True, tuple(d.keys())), s1))
                 elif fv[2] == 'values':
                     outs.append((('pyseq', True, tuple(d.values())), s1))
-                elif fv[2] == 'get':
-                    self.unsupported('dict.get in a tokenizer rule', n)
+                elif fv[2] == 'get' and isinstance(d, dict) and 1 <= len(n.args) <= 2 and not n.keywords:
+                    # table.get(key[, default]): one outcome per concrete key the abstract key can stand for (the
+                    # window is refined to that key, as for `key in table`)
+                    for vals, s2 in self.evs(n.args, s1):
+                        if isinstance(vals, Raised):
+                            outs.append((vals, s2))
+                            continue
+                        dflt = vals[1] if len(vals) > 1 else ('const', None)
+                        for key, s3 in self.concrete_keys(vals[0], s2, n):
+                            if key in d:
+                                v = d[key]
+                                outs.append((('cat', frozenset({int(v)})) if isinstance(v, int) and not isinstance(v, bool)
+                                             else self.lift(v), s3))
+                            else:
+                                outs.append((dflt, s3))
                 else:
                     self.unsupported('dict.%s' % fv[2], n)
             elif fv[0] == 'func':
@@ -923,7 +1039,7 @@ class TokInterp(Interp):
                 continue
             s1 = s0.copy()
             s1.top.vars[res] = ('nohit',)
-            for out, s2 in self.on_for(loop, s1):
+            for out, s2 in self.st_For(loop, s1):
                 if out != NEXT:
                     if isinstance(out, tuple) and out and out[0] == 'raise':
                         outs.append((out[2], s2))
@@ -1034,9 +1150,9 @@ class TokInterp(Interp):
                 f2.eaten = eaten_add((), eaten_syms)
                 f2.seq = tuple(frozenset(x) for x in eaten_syms)[:2]
             for k, v in list(f2.vars.items()):
-                if v[0] == 'tok':
+                if v[0] in ('tok', 'toklist', 'strof'):
                     # tokens built so far now lie (partly) after the cursor
-                    f2.vars[k] = ('tok', v[1]._replace(lag=M))
+                    f2.vars[k] = (v[0], v[1]._replace(lag=M))
                 elif v[0] in ('item', 'slotcat', 'range'):
                     f2.vars[k] = ('unknown', 'stale after rollback')
         return [(('unknown', 'backward result'), s)]
@@ -1084,6 +1200,12 @@ class TokInterp(Interp):
                 tok = Tok(start=s1.cur, lag=0, blen=0 if not invented else None, minlen=0 if not invented else 1,
                           pos=pos, kind=kind, fresh=True, shared=False, invented=invented, origin=None)
                 outs.append((('tok', tok), s1))
+            elif text[0] == 'strof':
+                # a plain string made of consumed pieces: the token takes the position argument
+                p = bound.get('position', ('const', None))
+                pos = ('cursor', p[1]) if p[0] == 'pos' else (p[1] if p[0] == 'tokpos' else ('other',))
+                t = text[1]._replace(fresh=True, shared=False, pos=pos, kind=kind)
+                outs.append((('tok', t), s1))
             elif text[0] == 'tok':
                 # utils.Token.__new__: text/position copied from the Token argument, the position
                 # argument is ignored, category = explicit or inherited (checked by rule R13.b)
@@ -1315,7 +1437,7 @@ class TokInterp(Interp):
                 self.unsupported('identity test against non-None', node)
             if l[0] == 'const':
                 return [((l[1] is None) != neg, st)]
-            if l[0] in ('tok', 'item', 'staleitem', 'ptok', 'cursor', 'pyseq', 'func', 'tuple'):
+            if l[0] in ('tok', 'item', 'staleitem', 'ptok', 'cursor', 'pyseq', 'func', 'tuple', 'cat', 'slotcat', 'tokcat'):
                 return [(neg, st)]
             self.unsupported('identity test of %s' % l[0], node)
         if isinstance(op, (ast.Eq, ast.NotEq)):
@@ -1565,14 +1687,28 @@ class TokInterp(Interp):
             if isinstance(it, Raised):
                 outs_all.append((('raise', it.exc, it), s0))
                 continue
+            gen_name = None
+            if it[0] == 'pygen':
+                # a one-shot iterator: the loop takes up where the previous one stopped, and leaves it advanced
+                if not isinstance(n.iter, ast.Name):
+                    self.unsupported('iteration over an anonymous generator', n)
+                gen_name, gen_all, gen_done = n.iter.id, it[1], it[2]
+                it = ('pyseq', True, it[1][it[2]:])
             if it[0] != 'pyseq':
                 self.unsupported('iteration over %s' % it[0], n)
             ordered, elems = it[1], it[2]
             if ordered:
                 frontier = [s0]
                 seen_shapes = {}
-                for p in elems:
-                    shape = self.shape_of(p)
+                for k_, p in enumerate(elems):
+                    if gen_name is not None:
+                        nf = []
+                        for f_ in frontier:
+                            f2_ = f_.copy()
+                            f2_.top.vars[gen_name] = ('pygen', gen_all, gen_done + k_ + 1)
+                            nf.append(f2_)
+                        frontier = nf
+                    shape = self.shape_of(p) if gen_name is None else None
                     if shape is not None:
                         if shape in seen_shapes:
                             if self.literal_watch:
@@ -1581,13 +1717,13 @@ class TokInterp(Interp):
                         seen_shapes[shape] = p
                     nxt = []
                     for s1 in frontier:
-                        pv = p if isinstance(p, tuple) and p and p[0] in ('tuple', 'const') else self.lift(p)
+                        pv = p if isinstance(p, tuple) and p and p[0] in ('tuple', 'const', 'func') else self.lift(p)
                         for s2 in self.assign(n.target, pv, s1):
                             for out, s3 in self.block(n.body, s2):
                                 if out in (NEXT, CONTINUE):
                                     nxt.append(s3)
                                 elif out == BREAK:
-                                    outs_all.append((NEXT, s3))
+                                    outs_all.append((BROKE, s3))
                                 else:
                                     outs_all.append((out, s3))
                     frontier = self.dedupe(nxt)
@@ -1615,7 +1751,7 @@ class TokInterp(Interp):
                                 d_ = self.same_shape_negs(s3, p, members[shape]).neg - s0.neg
                                 shape_negs = d_ if shape_negs is None else shape_negs & d_
                             elif out == BREAK:
-                                outs_all.append((NEXT, s3))
+                                outs_all.append((BROKE, s3))
                             else:
                                 outs_all.append((out, s3))
                     negs |= shape_negs or set()
@@ -1732,6 +1868,10 @@ def explore(repo, thorough=False):
     def on_backedge(loop, st):
         if loop is driver_loop and len(st.frames) == 1:
             rounds.append(('backedge', st))
+            # rounds are independent (each is explored from its own window) unless the driver carries state from one
+            # round to the next: a partly consumed one-shot iterator makes the next round a different one
+            if any(v[0] == 'pygen' and v[2] > 0 for v in st.top.vars.values()):
+                return [st]
             return []
         return [st]
     it.on_backedge = on_backedge
